@@ -43,9 +43,64 @@ partial def parseFilter (j : Json) : Query String :=
     | _ => default
   | _ => default
 
+/-- Line-protocol form of an ARBITRARY JSON value (C04, malformed / legacy filter texts), object
+    members in SOURCE order with duplicates kept: null / booleans / strings / arrays as themselves,
+    `{"num": "<literal>"}`, `{"obj": [[key, value], …]}`, and `{"deep": [shape, n, value]}` = the value
+    wrapped n times (`"arr"`: `[v]`, `"not"`: `{"$not": v}`, `"or"` / `"and"`: `{"$or": [v]}`,
+    any other shape s: `{s: v}`) — the case line itself must stay shallow. -/
+partial def parseJv (j : Json) : J :=
+  match j with
+  | .null => .null
+  | .bool b => .bool b
+  | .str s => .str s
+  | .num _ => .num 0
+  | .arr a => .arr (a.toList.map parseJv)
+  | .obj _ =>
+    match j.getObjVal? "obj", j.getObjVal? "deep" with
+    | .ok (.arr ms), _ => .obj (ms.toList.map fun m => match m with
+        | .arr #[.str k, v] => (k, parseJv v)
+        | _ => ("", .null))
+    | _, .ok (.arr #[.str shape, n, v]) =>
+      let wrap : J → J := match shape with
+        | "arr" => fun x => .arr [x]
+        | "not" => fun x => .obj [("$not", x)]
+        | "or" => fun x => .obj [("$or", .arr [x])]
+        | "and" => fun x => .obj [("$and", .arr [x])]
+        | s => fun x => .obj [(s, x)]
+      (List.range (n.getNat?.toOption.getD 0)).foldl (fun acc _ => wrap acc) (parseJv v)
+    | _, _ => .num 0
+
+/-- `"fjv": {"v": <value>}` — a text denoting that value; `{"raw": <text>}` without `"v"` — a text that does
+    not start with a JSON value; `{"raw": <text>, "v": <value>, "trail": b}` — that text, which starts
+    with that value, followed (b) by something other than white space -/
+def textOf (f : Json) : TextParse :=
+  match f.getObjVal? "v" with
+  | .ok v => .value (parseJv v) (bool! f "trail")
+  | .error _ => .malformed
+
+/-- `serde_json::Value` → `Json` (only used on `to_value` results: objects of at most one member) -/
+partial def jOfJ : J → Json
+  | .null => .null
+  | .bool b => .bool b
+  | .num n => .num (JsonNumber.fromInt n)
+  | .str s => .str s
+  | .arr xs => .arr (xs.map jOfJ).toArray
+  | .obj kvs => Json.mkObj (kvs.map fun kv => (kv.1, jOfJ kv.2))
+
+/-- op `"parse"`: `TagFilter::from_str(text)`, then `to_string` of what was parsed (as a value), or the
+    error kind together with the `Display` of its cause -/
+def parseOut (j : Json) : Json :=
+  match (getD? j "fjv").map (fun t => fromText (textOf t)) with
+  | some (.ok q) => Json.mkObj [("ok", jOfJ (toValue q))]
+  | some (.error e) => Json.mkObj [("err", .str e.kindName), ("msg", .str e.display)]
+  | none => jerr "BadOp"
+
 /-- `"fj": true` sends the filter through its JSON form, as the harness does on the real code
     (`TagFilter::to_string` then `TagFilter::from_str`): the filter used is what parses back. -/
 def filterRoute (j : Json) (k : String) : Except String (Option (Query String)) :=
+  -- `"fjv"`: the filter is given as a text (C04 malformed / legacy stream) and parsed by `from_str`
+  if let some t := getD? j "fjv" then
+    (match fromText (textOf t) with | .ok q => .ok (some q) | .error e => .error e.display) else
   match (getD? j k).map parseFilter with
   | none => .ok none
   | some q => if bool! j "fj" then (jsonRoute q).map some else .ok (some q)
@@ -151,6 +206,7 @@ def sessionlessScan (st : St) (j : Json) : St × Json :=
     | _ => (st, jerr "BadOp")
 
 def stepOp (st : St) (j : Json) : St × Json :=
+  if str! j "op" == "parse" then (st, parseOut j) else
   -- a filter that does not parse back: `from_str` fails with `err_map!("Error parsing tag query")` = Input
   if !(filterRoute j "f").toBool then (st, jerr Err.input.name) else
   let op := str! j "op"
